@@ -258,6 +258,14 @@ pub fn menu(st: &GenState, prog: &Program, cfg: &GenCfg) -> Vec<Step> {
         }
     }
 
+    // ---- select !{..} over an *open* frame (columns known only through a wildcard): one exclusion
+    if naming && !f.open.is_empty() && r.len() >= 2 && r.len() == f.cols.len() {
+        m.push(Step::SelectExcept(vec![r[0]]));
+        if r.len() >= 4 {
+            m.push(Step::SelectExcept(vec![r[1], r[3]]));
+        }
+    }
+
     // ---- derive
     for &i in &r2 {
         m.push(Step::Derive(vec![Item { alias: Some("x".into()), e: plus1(i) }]));
